@@ -3,6 +3,7 @@
 from __future__ import annotations
 
 import logging
+import re
 from typing import TYPE_CHECKING
 
 from mxlpy.meta.sympy_tools import (
@@ -233,7 +234,7 @@ def generate_model_code_rs(
         args = ", ".join(f"{k}: f64" for k in free_parameters)
         model_fn = f"fn model(time: f64, variables: &[f64; {{n}}], {args}) -> [f64; {{n}}] {{{{"
 
-    return _generate_model_code(
+    source = _generate_model_code(
         model,
         imports=None,
         sized=True,
@@ -246,6 +247,11 @@ def generate_model_code_rs(
         free_parameters=free_parameters,
         custom_fns={} if custom_fns is None else custom_fns,
     )
+    # sympy prints pi and e as the bare constants
+    if re.search(r"\b(PI|E)\b", source.split("\n", 1)[1]):
+        header, body = source.split("\n", 1)
+        source = f"{header}\n    use std::f64::consts::{{E, PI}};\n{body}"
+    return source
 
 
 def generate_model_code_jl(
